@@ -19,6 +19,8 @@ type c02SyncSrc struct {
 	top   uint32
 	nodes map[util.Uint256][]byte // MPT nodes of the state at P, by hash
 	p     uint32
+	// wrapBlock, when set, runs the addition of block i (c02RunJump: under c02StepCache)
+	wrapBlock func(i uint32, add func() error) error
 }
 
 func c02SyncPoint(top uint32) uint32 { return top / c02SSI * c02SSI }
@@ -93,7 +95,14 @@ func (s *c02SyncSrc) drive(bc *core.Blockchain, nodeBatch int, flush func(step i
 			if i > s.top {
 				return fmt.Errorf("block %d requested", i)
 			}
-			if err := m.AddBlock(s.b.Blocks[i]); err != nil {
+			add := func() error { return m.AddBlock(s.b.Blocks[i]) }
+			var err error
+			if s.wrapBlock != nil {
+				err = s.wrapBlock(i, add)
+			} else {
+				err = add()
+			}
+			if err != nil {
 				return fmt.Errorf("statesync AddBlock %d: %w", i, err)
 			}
 		default:
